@@ -11,4 +11,4 @@ Extraction "extract/syntax_core.ml"
   tk_index sk_index tk_name sk_name bytes
   lex_text lex_err_msg
   prep_text any_err_msg
-  parse_with grammar_prog grammar_entry tree_len nlex nstart.
+  parse_with grammar_prog grammar_entry tree_len nlex nstart msg_text.
